@@ -325,7 +325,10 @@ func trimStack(b []byte) string {
 			continue
 		}
 		if strings.Contains(ln, "zzsimrt.") {
-			break
+			if strings.Contains(ln, ".Spawn") {
+				break
+			}
+			continue // runtime wrappers (zzsimrt.Close, zzsimrt.Lock, ...) are not interesting
 		}
 		out = append(out, ln)
 		if len(out) >= 12 {
